@@ -7,6 +7,7 @@ import (
 	"go/token"
 	"go/types"
 	"sort"
+	"strings"
 
 	"golang.org/x/tools/go/ssa"
 )
@@ -92,6 +93,11 @@ func (h *Handler) boundFunc(v ssa.Value) *ssa.Function {
 		case *ssa.MakeClosure:
 			f, _ := b.Fn.(*ssa.Function)
 			return f
+		case *ssa.UnOp:
+			// a package-level function value that is set once, in the package initialiser
+			if g, ok := b.X.(*ssa.Global); ok && b.Op == token.MUL {
+				return globalFuncValue(g)
+			}
 		}
 	case *ssa.FreeVar:
 		if h == nil || h.Bind == nil {
@@ -366,6 +372,21 @@ func (w *World) extractHandlers(f *Facts) {
 				hd := &Handler{NT: nt, Fn: hf, Pos: pos, Bind: bind}
 				if g, pb := delegatesTo(hf); g != nil {
 					hd.Fn, hd.ParamBind, hd.Wrapper = g, pb, hf
+				}
+				// a method value (`arithmeticOp(add).exec`): the handler is the method, its receiver is bound
+				if mc, isMC := stripConv(val).(*ssa.MakeClosure); isMC && strings.Contains(hf.Synthetic, "bound method") && len(mc.Bindings) == 1 {
+					var m *ssa.Function
+					allInstrs(hf, func(in ssa.Instruction) {
+						if c, ok := in.(ssa.CallInstruction); ok {
+							if sc := c.Common().StaticCallee(); sc != nil && inRepo(sc) {
+								m = sc
+							}
+						}
+					})
+					if m != nil && len(m.Params) >= 3 {
+						hd.Fn, hd.Wrapper = m, hf
+						hd.ParamBind = map[*ssa.Parameter]ssa.Value{m.Params[0]: mc.Bindings[0]}
+					}
 				}
 				f.Handlers[nt] = hd
 			}
@@ -816,4 +837,54 @@ func overloadsFromFactory(call *ssa.Call) (map[int]*ssa.Function, map[int]map[*s
 		return nil, nil
 	}
 	return tbl, binds
+}
+
+// globalFuncValue: the function a package-level variable of function type holds: it is stored exactly once in the whole
+// program, in the package initialiser, and the value is a function or a literal.
+func globalFuncValue(g *ssa.Global) *ssa.Function {
+	if g.Pkg == nil || theWorld == nil {
+		return nil
+	}
+	var out *ssa.Function
+	n := 0
+	for k := range theWorld.SSA {
+		theWorld.forAllFuncs(k, func(fn *ssa.Function) {
+			allInstrs(fn, func(in ssa.Instruction) {
+				st, ok := in.(*ssa.Store)
+				if !ok || st.Addr != ssa.Value(g) {
+					return
+				}
+				n++
+				if fn.Name() != "init" || fn.Pkg != g.Pkg {
+					n++
+				}
+				switch v := stripConv(st.Val).(type) {
+				case *ssa.Function:
+					out = v
+				case *ssa.MakeClosure:
+					out, _ = v.Fn.(*ssa.Function)
+				}
+			})
+		})
+	}
+	// the initialiser is not among the functions forAllFuncs visits for every package layout: look there too
+	if ini := g.Pkg.Func("init"); ini != nil && n == 0 {
+		allInstrs(ini, func(in ssa.Instruction) {
+			st, ok := in.(*ssa.Store)
+			if !ok || st.Addr != ssa.Value(g) {
+				return
+			}
+			n++
+			switch v := stripConv(st.Val).(type) {
+			case *ssa.Function:
+				out = v
+			case *ssa.MakeClosure:
+				out, _ = v.Fn.(*ssa.Function)
+			}
+		})
+	}
+	if n != 1 {
+		return nil
+	}
+	return out
 }
